@@ -39,7 +39,7 @@ func c06Faults() []c06Fault {
 		{"bi-min-none", BI("min"), ""}, {"bi-max-empty", BI("max", "[]"), ""}, {"bi-min-str", BI("min", "1", `"x"`), ""}, {"bi-round-nil", BI("round", "nil"), ""},
 		{"bi-input-two", BI("input", `"a"`, `"b"`), ""}, {"bi-input-num", BI("input", "5"), ""}, {"bi-clock-arg", BI("clock", "1"), ""},
 		// statement faults
-		{"redeclare", "", Var("dup", "2")}, {"undefined-assign", "", "নেই = 1;"},
+		{"redeclare", "", Var("dup", "2")}, {"redeclare-in-list", "", K["var"] + " fresh1 = 1, dup = 2;"}, {"redeclare-list-twice", "", K["var"] + " m1 = 1, m2 = 2; " + K["var"] + " m3 = 3, m1 = 4;"}, {"undefined-assign", "", "নেই = 1;"},
 		{"idxw-high", "", "arr[5] = 1;"}, {"idxw-str", "", `arr["x"] = 1;`}, {"idxw-neg", "", "arr[-1] = 1;"}, {"idxw-nonarray", "", "(5)[0] = 1;"},
 		{"propw-num", "", "(5).k = 1;"}, {"propw-nil", "", "nil.k = 1;"}, {"propw-nested-missing", "", "obj.zz.k = 1;"},
 	}
@@ -144,6 +144,33 @@ func c06Program(f c06Fault, p c06Pos, layout int) (string, bool) {
 
 func c06Judge(c *Ctx, cs *Case) {
 	c.Begin(cs)
+	if cs.Gen == "string-valued-faults" {
+		x := RunLib(cs.Src, RunOpts{MaxSteps: 200000, Stdin: cs.Stdin, Events: "io"})
+		y := RunLib(cs.Alt[0], RunOpts{MaxSteps: 200000, Stdin: cs.Stdin, Events: "io"})
+		if CheckAbnormal(c, x) || CheckAbnormal(c, y) {
+			return
+		}
+		dx, dy := ParseDiags(x.Stderr), ParseDiags(y.Stderr)
+		if x.Exit == 70 && y.Exit == 0 {
+			c.Count("string_fault_operator_rejects_string", 1)
+			return
+		}
+		same := x.Stdout == y.Stdout && x.Exit == y.Exit && len(dx) == len(dy)
+		if same && len(dx) > 0 {
+			same = NormDiag(dx[0], true) == NormDiag(dy[0], true) && dx[0].Line == dy[0].Line
+		}
+		if !same {
+			c.Violate(Violation{Why: "a fault that depends on a run-time string behaves differently from the same fault on the number the string coerces to (" + cs.X["fault"] + " at " + cs.X["pos"] + ")", Expected: "with the number: " + describeObs(y), Observed: "with the string: " + describeObs(x), Signature: "string-valued-fault"})
+			return
+		}
+		if bad := afterFaultMonitor(x); bad != "" {
+			c.Violate(Violation{Why: bad, Observed: describeObs(x), Signature: "event-after-fault"})
+			return
+		}
+		c.Count("string_valued_faults_consistent", 1)
+		c.Nontrivial(cs.Src)
+		return
+	}
 	if cs.Mode == "cli" {
 		m := RunModel(cs.Src, cs.Stdin, false, 0)
 		if cliJudge(c, cs, m) != "" {
@@ -254,6 +281,36 @@ func c06Run(c *Ctx) {
 			c06Judge(c, &Case{Gen: "fault-free-controls-cli", Mode: "cli", Src: src, Stdin: stdin})
 		}
 	}
+	// a fault that depends on a run-time string (zero divisor, negative shift count, bad index given
+	// as text, e.g. read with ইনপুট): where the operation accepts the string at all, the program must
+	// behave exactly as with the number the string coerces to — in particular it must stop
+	for _, p := range poss {
+		if strings.Contains(p.tmpl, "%S") {
+			continue
+		}
+		for _, pair := range [][2]string{{"(7 / zs)", "(7 / (zs * 1))"}, {"(7 % zs)", "(7 % (zs * 1))"}, {"(1 << ns)", "(1 << (ns * 1))"}, {"arr[ns]", "arr[ns * 1]"}, {"(7 / " + BI("input") + ")", "(7 / (" + BI("input") + " * 1))"}} {
+			a, _ := c06Program(c06Fault{"string-fault", pair[0], ""}, p, 0)
+			b, _ := c06Program(c06Fault{"string-fault", pair[1], ""}, p, 0)
+			pre := Var("zs", `"0"`) + "\n" + Var("ns", `"-1"`) + "\n"
+			if c.Mine() {
+				c06Judge(c, &Case{Gen: "string-valued-faults", Src: pre + a, Alt: []string{pre + b}, Stdin: "0\nline-two\nline-three\nline-four\n", X: map[string]string{"pos": p.name, "fault": pair[0]}})
+			}
+		}
+	}
+	// blocks, loop bodies and function bodies whose only declarations are multi-variable ones (no fault)
+	for _, src := range []string{
+		Lines(Var("n", "0"), While("n < 3", "{ n = n + 1; "+K["var"]+" a = n, b = 2; "+Print("a * b")+" }"), Print(`"end"`)),
+		Lines(For(Var("i", "0"), "i < 3", "i = i + 1", "{ "+K["var"]+" a = i, b; "+Print("a")+" }"), "{ "+K["var"]+" a = 1, b = 2; }", "{ "+K["var"]+" a = 3, b = 4; "+Print("a + b")+" }"),
+		Lines(Fun("f", "", " "+K["var"]+" a = 1, b = 2; "+Ret("a + b")+" "), Print("f()"), Print("f()")),
+		Lines("{ "+K["var"]+" p = 1, q = 2; }", Print(`"before"`), Print("p"), Print(`"AFTER"`)),
+	} {
+		if c.Mine() {
+			c06Judge(c, &Case{Gen: "multi-declarations", Src: src, Stdin: stdin})
+		}
+		if c.Mine() {
+			c06Judge(c, &Case{Gen: "multi-declarations-cli", Mode: "cli", Src: src, Stdin: stdin})
+		}
+	}
 	// random programs with planted faults
 	r := c.Rand("random")
 	n := c.N(8000, 600000)
@@ -280,7 +337,7 @@ func init() {
 		Run:         c06Run,
 		Judge:       c06Judge,
 		MustCount: func(c *Ctx) []string {
-			out := []string{"gen:planted-faults", "gen:planted-faults-cli", "gen:fault-free-controls", "fault_free_programs", "cli_runs", "hook_transparency_checked"}
+			out := []string{"gen:planted-faults", "gen:planted-faults-cli", "gen:fault-free-controls", "fault_free_programs", "cli_runs", "hook_transparency_checked", "string_valued_faults_consistent"}
 			for _, p := range c06Positions() {
 				out = append(out, "pos:"+p.name)
 			}
